@@ -90,6 +90,8 @@ def err_name(e: BaseException) -> str:
 
 def _quiet() -> None:
     import logging
+    import warnings
+    warnings.filterwarnings("ignore", message="Duplicate name", category=UserWarning)
     logging.getLogger("poetry.core").setLevel(logging.ERROR)
 
 
